@@ -463,6 +463,13 @@ func (c10) Units(tier string, seed int64) ([]core.Unit, error) {
 		b, _ := json.Marshal(u)
 		units = append(units, b)
 	}
+	// CPU leg: work that neither reads nor polls (see cpu.go)
+	lit := "gen:literals:300000"
+	if tier != "quick" {
+		lit = "gen:literals:600000"
+	}
+	cb, _ := json.Marshal(C10Unit{Doc: docSpec{Name: lit}, Seed: int64(rng.Uint64() >> 1)})
+	units = append(units, cb)
 	return units, nil
 }
 
@@ -572,6 +579,22 @@ func (c10) RunUnit(raw core.Unit, tier string, seed int64) core.UnitResult {
 	res := core.UnitResult{FaultFired: map[string]int{}, EventsSeen: map[string]int{}, Probes: map[string]int{}}
 	if err := json.Unmarshal(raw, &u); err != nil {
 		res.Trouble = err.Error()
+		return res
+	}
+	if strings.HasPrefix(u.Doc.Name, "gen:literals:") {
+		n := 0
+		fmt.Sscanf(u.Doc.Name, "gen:literals:%d", &n)
+		o := runCPU(n)
+		res.Evaluations++
+		if !o.cancelled {
+			res.Trouble = fmt.Sprintf("CPU leg: the read of %s never reached the tail of the large object (err=%v)", u.Doc.Name, o.err)
+			return res
+		}
+		res.FaultFired["cancel-cpu"]++
+		res.Nontrivial = append(res.Nontrivial, u.Doc.Name+"|cpu")
+		res.Probes["max_cpu_ms_after_cancel_large_object"] = int(o.cpuAfter / time.Millisecond)
+		res.Violations = append(res.Violations, judgeCPU(n, o)...)
+		res.Samples = append(res.Samples, map[string]any{"document": u.Doc.Name, "cpu_seconds_after_cancel": o.cpuAfter.Seconds(), "wall_seconds": o.wall.Seconds(), "returned_error": fmt.Sprint(o.err)})
 		return res
 	}
 	b, err := loadDoc(u.Doc)
@@ -744,6 +767,16 @@ func (c10) Replay(payload json.RawMessage) ([]core.Violation, error) {
 	var rp C10Replay
 	if err := json.Unmarshal(payload, &rp); err != nil {
 		return nil, err
+	}
+	if rp.Mode == "cpu" {
+		n := 0
+		fmt.Sscanf(rp.Doc.Name, "gen:literals:%d", &n)
+		o := runCPU(n)
+		fmt.Printf("CPU leg: cancelled=%v returned=%v err=%v cpu after cancel %.2fs wall %.2fs\n", o.cancelled, o.returned, o.err, o.cpuAfter.Seconds(), o.wall.Seconds())
+		if !o.cancelled {
+			return nil, fmt.Errorf("the trigger was not reached")
+		}
+		return judgeCPU(n, o), nil
 	}
 	b, err := loadDoc(rp.Doc)
 	if err != nil {
